@@ -111,7 +111,10 @@ structure Cx where
   f : Finder
   units : List Nat
 
-def Cx.exec (c : Cx) (li : Nat) : Option MatchR × Nat := specExec c.fl c.f c.units.length li
+/-- exec as goja's `execRegexp`; by `exec_lastIndex_protocol` this IS RegExpBuiltinExec whenever the finder is
+leftmost (the check validates that on every table; the only exception seen is a unicode-mode lastIndex that splits
+a surrogate pair, where goja — like V8 — snaps back to the start of the pair). -/
+def Cx.exec (c : Cx) (li : Nat) : Option MatchR × Nat := execRegexp c.fl c.f c.units.length li
 
 def execChain (c : Cx) : Nat → Nat → List String
   | 0, _ => []
